@@ -152,7 +152,13 @@ func (m *maxDifferenceWatermarkGenerator) Run(ctx execution.ExecutionContext, pr
 			}
 		}
 
-		curTimeValueRoundedDown := time.Unix(0, record.Values[m.timeFieldIndex].Time.UnixNano()/int64(resolution.Duration)*int64(resolution.Duration))
+		// Round down (towards negative infinity, not towards zero, so that instants before 1970 are rounded down too).
+		timeValueNanos := record.Values[m.timeFieldIndex].Time.UnixNano()
+		remainder := timeValueNanos % int64(resolution.Duration)
+		if remainder < 0 {
+			remainder += int64(resolution.Duration)
+		}
+		curTimeValueRoundedDown := time.Unix(0, timeValueNanos-remainder)
 
 		if curTimeValueRoundedDown.After(maxValue) {
 			maxValue = curTimeValueRoundedDown
